@@ -495,6 +495,15 @@ func isFieldAddrOf(addr ssa.Value, fld *types.Var) bool {
 	return st.Field(fa.Field) == fld
 }
 
+func sharesClass(a map[string]bool, b map[string]bool) bool {
+	for k := range a {
+		if b[k] {
+			return true
+		}
+	}
+	return false
+}
+
 // checkAtomic applies ATOMIC to every write-open site of the repository whose
 // path may denote one of the critical classes.
 func checkAtomic(c *core.Ctx, r *core.Report, tbl *classTable, classes []string, exceptions map[string]string) {
@@ -587,11 +596,65 @@ func checkAtomic(c *core.Ctx, r *core.Report, tbl *classTable, classes []string,
 					}
 				}
 			}
+			handedOver := false
+			if !okRename {
+				// the temporary file is written by a helper that gets its name from the caller: the rename of that
+				// very name must then follow the helper's call in every caller (and the live file must not be removed
+				// or emptied between the two)
+				if par, isPar := s.Path.(*ssa.Parameter); isPar && s.Fn.Parent() == nil {
+					idx := -1
+					for i, p := range s.Fn.Params {
+						if p == par {
+							idx = i
+						}
+					}
+					callers := c.StaticCallers()[s.Fn]
+					all := idx >= 0 && len(callers) > 0
+					for _, cs := range callers {
+						if idx < 0 || idx >= len(cs.Common().Args) {
+							all = false
+							continue
+						}
+						arg := cs.Common().Args[idx]
+						found := false
+						core.WalkForward(cs.Parent(), cs, func(in ssa.Instruction) bool {
+							if ci, ok := in.(ssa.CallInstruction); ok && core.IsCallTo(ci, rename) && ci.Common().Args[0] == arg {
+								found = true
+								return false
+							}
+							if rc, ok := in.(ssa.CallInstruction); ok {
+								if rf := core.CalleeFunc(rc); rf != nil && rf.Pkg() != nil && rf.Pkg().Path() == "os" && len(rc.Common().Args) > 0 {
+									switch rf.Name() {
+									case "Remove", "RemoveAll", "Truncate":
+										// removing the temporary file itself (clean-up after a failed write) is fine
+										if rc.Common().Args[0] != arg {
+											if pcl := classifyPath(c, rc.Common().Args[0], tbl, 4); !pcl.Tmp && sharesClass(pcl.Classes, hit) {
+												r.Violation("ATOMIC", construct+":live-file-kept-until-the-rename", c.Pos(rc.Pos()), "the live recovery-critical file is removed (or emptied) before the temporary file is renamed onto it: a crash between the two system calls leaves no file at all, so everything that was recoverable from the previous version is lost")
+											}
+										}
+									}
+								}
+							}
+							return true
+						})
+						if !found {
+							all = false
+						}
+					}
+					if all {
+						okRename, handedOver = true, true
+					}
+				}
+			}
 			if okRename && s.Trunc != core.Yes {
 				r.Violation("ATOMIC", construct+":temporary-file-starts-empty", c.Pos(s.Call.Pos()), "the temporary file is opened without truncation: after a pass that was interrupted between writing the temporary file and the rename, the next pass overwrites the stale file in place, and if it writes fewer bytes the stale tail is renamed onto the live path (entries that were just removed come back)")
 			}
 			if okRename {
-				r.OK("ATOMIC", construct, c.Pos(s.Call.Pos()), "temporary file, renamed onto the live path in the same function")
+				how := "temporary file, renamed onto the live path in the same function"
+				if handedOver {
+					how = "temporary file named by the caller, renamed onto the live path after this helper's call in every caller"
+				}
+				r.OK("ATOMIC", construct, c.Pos(s.Call.Pos()), how)
 			} else {
 				r.Violation("ATOMIC", construct, c.Pos(s.Call.Pos()), "temporary file is never renamed onto the live path in this function")
 			}
